@@ -25,6 +25,7 @@ func cmdSweep(args []string) {
 		os.Exit(2)
 	}
 	globalSpecs = specs
+	scanROM(prog, NewExec(prog, specs))
 	verbose := false
 	dump := ""
 	cr := &checkRun{prog: prog, specs: specs, abstract: map[string]int{}, assumed: map[string]bool{}, used: map[string]bool{}, smtDir: prog.Scratch, timeoutMs: 10000}
